@@ -94,7 +94,7 @@ def outcome(text, cfg):
                 return 'bad', 'TextXError without a message (%s)' % type(e).__name__
             return 'textx', type(e).__name__
         except AssertionError as e:
-            if re.search(r'(^|\s)import\s', text):
+            if re.search(r'(^|\s)import', text):       # 'importb' is read as 'import b'
                 return 'documented', 'import in a string grammar'
             return 'bad', 'AssertionError: %s' % e
         except BaseException as e:  # noqa
